@@ -18,7 +18,7 @@ RULE = (
     'incl. filters matching nothing; request / release / cancel / context-manager exit / '
     'interrupting the requesting process inside its `with request:` block, also in the time step '
     'in which it is granted) against '
-    'Container, Store, PriorityStore, FilterStore, Resource, PriorityResource and '
+    'Container, Store, PriorityStore, FilterStore (items equal but distinct), Resource, PriorityResource, PreemptiveResource with worker processes that issue several requests each (self-preemption included) and '
     'PreemptiveResource with capacities {1, 2, 3, inf}; every request is issued by its own '
     'process (so preemption interrupts a distinct process); operations happen one per time step '
     'or in bursts inside one time step. At every time-step end the real state (level / items / '
@@ -41,7 +41,7 @@ ASSUMPTIONS = [
 REQUIRED_STATS = ['histories', 'snapshots_compared', 'operations', 'waited_requests']
 
 TYPES = ['container', 'store', 'prioritystore', 'filterstore', 'resource', 'priorityresource',
-         'preemptive']
+         'preemptive', 'workers']
 
 
 def n_cases(tier):
@@ -51,6 +51,8 @@ def n_cases(tier):
 def make_case(seed, index, tier):
     rng = random.Random('%s/%s/c19' % (seed, index))
     kind = TYPES[index % len(TYPES)]
+    if kind == 'workers':
+        return make_workers_case(seed, index, tier, rng)
     capacity = rng.choice([1, 2, 3, 'inf']) if kind not in ('resource', 'priorityresource',
                                                             'preemptive') \
         else rng.choice([1, 1, 2, 3])
@@ -221,8 +223,194 @@ def run_model(case):
     return snapshots, model
 
 
+# ---- processes that issue several requests (PreemptiveResource) --------------------------------
+def make_workers_case(seed, index, tier, rng):
+    """every operation in a time step of its own; a request is issued by a new or by an existing
+    worker process - also by one that holds a slot itself (it may preempt itself)"""
+    capacity = rng.choice([1, 1, 2, 3])
+    ops = []
+    pids = []
+    requests = []
+    for number in range(rng.randint(4, 40 if tier == 'thorough' else 22)):
+        op = {'t': number + 1}
+        roll = rng.random()
+        if roll < 0.68 or not requests:
+            op.update(op='request', priority=rng.choice([0, 1, 1, 2, 3, 4]),
+                      preempt=rng.random() < 0.75)
+            if pids and rng.random() < 0.45:
+                op['pid'] = rng.choice(pids)
+            else:
+                op['pid'] = number
+                pids.append(number)
+            requests.append(number)
+        elif roll < 0.9:
+            op.update(op='release', target=rng.choice(requests))
+        else:
+            op.update(op='cancel', target=rng.choice(requests))
+            requests.remove(op['target'])
+        ops.append(op)
+    return {'seed': seed, 'index': index, 'tier': tier, 'kind': 'workers', 'capacity': capacity,
+            'init': 0, 'ops': ops}
+
+
+def run_workers_model(case):
+    model = simpyres.PreemptiveResourceModel(case['capacity'])
+    dead = set()
+    pid_of = {}
+    issued = set()
+    snapshots = {}
+    observable = []
+    seen = 0
+    for number, op in enumerate(case['ops']):
+        model.now = op['t']
+        if op['op'] == 'request':
+            if op['pid'] not in dead:
+                pid_of[number] = op['pid']
+                issued.add(number)
+                model.put({'op': number, 'priority': op['priority'], 'preempt': op['preempt']})
+        elif op['target'] in issued:
+            if op['op'] == 'release':
+                model.get({'op': number, 'request': op['target']})
+            else:
+                model.cancel(op['target'])
+        for victim, by, since in model.preemptions[seen:]:
+            # (a process that has ended already loses the slot but cannot be interrupted again)
+            if pid_of[victim] not in dead:
+                observable.append((pid_of[victim], pid_of[by], since))
+            dead.add(pid_of[victim])
+        seen = len(model.preemptions)
+        snapshots[op['t']] = model.snapshot()
+    return snapshots, sorted(observable), model
+
+
+def run_workers_case(case):
+    from usim.py.resources.resource import PriorityRequest
+    expected, want_preemptions, model = run_workers_model(case)
+    sess = Session(budget_per_step=20000, budget_total=400000)
+    holder = {'requests': {}, 'workers': {}, 'cmds': {}, 'preempted': [], 'snapshots': {},
+              'bounds': []}
+
+    def runner():
+        env = usimpy.Environment()
+        res = PreemptiveResource(env, capacity=case['capacity'])
+        holder['res'] = res
+        workers = holder['workers']
+
+        def worker(pid):
+            try:
+                while True:
+                    command = holder['cmds'][pid] = env.event()
+                    number, op = yield command
+                    holder['requests'][number] = PriorityRequest(res, op['priority'],
+                                                                 op['preempt'])
+            except UsimInterrupt as interrupt:
+                cause = interrupt.cause
+                if isinstance(cause, Preempted):
+                    by = next((p for p, proc in workers.items() if proc is cause.by), None)
+                    holder['preempted'].append((pid, by, cause.usage_since,
+                                                cause.resource is res))
+                else:
+                    holder['preempted'].append((pid, 'not-preempted', repr(cause), True))
+
+        def driver():
+            last = 0
+            for number, op in enumerate(case['ops']):
+                yield env.timeout(op['t'] - last)
+                last = op['t']
+                if op['op'] == 'request':
+                    pid = op['pid']
+                    if pid not in workers:
+                        workers[pid] = env.process(worker(pid))
+                        yield env.timeout(0)
+                    if workers[pid].is_alive:
+                        holder['cmds'][pid].succeed((number, op))
+                        yield env.timeout(0)
+                elif op['target'] in holder['requests']:
+                    if op['op'] == 'release':
+                        holder['requests'][number] = res.release(
+                            holder['requests'][op['target']])
+                    else:
+                        holder['requests'][op['target']].cancel()
+            yield env.timeout(1)
+        env.process(driver())
+        env.run(until=case['ops'][-1]['t'] + 2)
+
+    def snapshot(session, loop, prev_time):
+        res = holder.get('res')
+        if res is None:
+            return
+        requests = holder['requests']
+        index_of = {id(req): number for number, req in requests.items()}
+        holder['bounds'].append(len(res.users))
+        holder['snapshots'][prev_time] = {
+            'granted': {number: None for number, request in requests.items()
+                        if request.triggered},
+            'put_queue': [index_of.get(id(req)) for req in res.put_queue],
+            'get_queue': [index_of.get(id(req)) for req in res.get_queue],
+            'users': sorted(index_of.get(id(req)) for req in res.users)}
+
+    sess.step_end_hooks.append(snapshot)
+    outcome = sess.run(runner=runner)
+    violations = []
+
+    def vio(mechanism, msg):
+        violations.append({'mechanism': 'c19:' + mechanism, 'msg': msg, 'case': dict(case)})
+    for v in sess.violations:
+        if v['mechanism'].startswith('kernel-'):
+            vio(v['mechanism'], v['msg'])
+    if outcome[0] != 'ok':
+        vio('run-failed', 'history with multi-request processes: run ended with %r' % (
+            outcome[1],))
+    stats = {'histories': 1, 'snapshots_compared': 0, 'operations': len(case['ops']),
+             'interrupted_requesters': 0, 'waited_requests': 0,
+             'preemptions': len(want_preemptions), 'kinds': {'workers': 1},
+             'self_preemptions': sum(1 for victim, by, _ in want_preemptions if victim == by)}
+    for when in sorted(expected):
+        want = expected[when]
+        got = holder['snapshots'].get(when)
+        if got is None:
+            if outcome[0] == 'ok':
+                vio('no-snapshot', 'no state observed at the end of time step %r' % when)
+            continue
+        stats['snapshots_compared'] += 1
+        if want['put_queue']:
+            stats['waited_requests'] = 1
+        for key in ('granted', 'put_queue', 'users'):
+            mine, theirs = got[key], want[key]
+            if key == 'granted':
+                mine, theirs = sorted(mine), sorted(theirs)
+            if mine != theirs:
+                vio('state-differs:' + key,
+                    'PreemptiveResource(capacity %s) with multi-request processes at the end of '
+                    'time step %r: %s is %r, reference model %r' % (
+                        case['capacity'], when, key, mine, theirs))
+                break
+        else:
+            continue
+        break
+    if any(count > case['capacity'] for count in holder['bounds']):
+        vio('more-users-than-capacity', 'users %s, capacity %s' % (
+            holder['bounds'], case['capacity']))
+    if outcome[0] == 'ok':
+        got = sorted((pid, by, since) for pid, by, since, is_res in holder['preempted'])
+        if got != want_preemptions:
+            vio('preemption', 'processes preempted (victim process, by process, usage_since): '
+                              '%s, reference model %s' % (got, want_preemptions))
+        if not all(entry[3] for entry in holder['preempted']):
+            vio('preemption', 'Preempted.resource is not the resource')
+    digest = 'workers/%d' % (hash(repr(case['ops'])) & 0xffffffff)
+    sample = None
+    if case['index'] < 16:
+        sample = {'kind': 'workers', 'capacity': case['capacity'], 'ops': case['ops'][:12],
+                  'preemptions': want_preemptions}
+    return {'evals': 1, 'sigs': [digest] if stats['waited_requests'] or want_preemptions else [],
+            'stats': stats, 'violations': violations, 'sample': sample}
+
+
 def run_case(case):
     kind = case['kind']
+    if kind == 'workers':
+        return run_workers_case(case)
     capacity = float('inf') if case['capacity'] == 'inf' else case['capacity']
     expected, model = run_model(case)
     sess = Session(budget_per_step=20000, budget_total=400000)
